@@ -781,13 +781,30 @@ func (e *Env) call(n *SCall) *Val {
 		}
 		ne := &Env{vc: vc, st: e.st, old: e.old, pre: e.pre, vars: map[string]*Val{}, depth: e.depth + 1, fr: nil, idx: e.idx}
 		// quantifier-bound variables stay visible through vars of caller? no: hygiene
+		var lets []string
 		for i, p := range sf.Params {
-			ne.vars[p.Name] = e.eval(n.Args[i])
+			av := e.eval(n.Args[i])
+			if len(av.S) > 60 && av.P == nil && av.absName == "" {
+				// share long argument terms through an SMT let
+				vc.nlet++
+				nm := fmt.Sprintf("l_%s_%d", p.Name, vc.nlet)
+				lets = append(lets, "("+nm+" "+av.S+")")
+				cp := *av
+				cp.S = nm
+				av = &cp
+			}
+			ne.vars[p.Name] = av
 		}
+		ne.pats = e.pats
 		// allow old() inside spec functions to refer to caller's old
 		v := ne.eval(sf.Body)
 		if ne.err != nil && e.err == nil {
 			e.err = fmt.Errorf("in %s: %v", n.Fun, ne.err)
+		}
+		if len(lets) > 0 && v.S != "" {
+			cp := *v
+			cp.S = "(let (" + strings.Join(lets, " ") + ") " + v.S + ")"
+			return &cp
 		}
 		return v
 	}
